@@ -2,7 +2,6 @@ package indexer
 
 import (
 	"context"
-	"encoding/binary"
 	"fmt"
 	"sort"
 	"strconv"
@@ -268,12 +267,8 @@ func TestVerifC31(t *testing.T) {
 		it := idx.blockDB.NewIteratorWithPrefix(blockEntryKeyPrefix)
 		for it.Next() {
 			k := it.Key()
-			hs := "badkey:" + verifh.Hex(k)
-			if len(k) == 9 {
-				hs = strconv.FormatUint(binary.BigEndian.Uint64(k[1:]), 10)
-			}
 			b, err := chain.UnmarshalExecutedBlock(it.Value(), env.parser)
-			ds = append(ds, hs+"="+env.name(b, err))
+			ds = append(ds, verifh.Hex(k)+"="+env.name(b, err)) // raw key: the model encodes 0x02 ++ be64 height
 		}
 		it.Release()
 		return fmt.Sprintf("L=%s H:%s B:%s T:%s D:%s", a.latest, strings.Join(hs, ","), strings.Join(bs, ","), strings.Join(ts, ","), strings.Join(ds, ",")), a
@@ -638,6 +633,22 @@ func c31Generate(r *verifh.Run) []string {
 		add("restart %d", w)
 	}
 
+	// consecutive heights across a byte boundary of the height encoding (255/256/257, and 65535/65536),
+	// constant window, a restart at every point: the store's key order must be the numeric order
+	for _, c := range [][2]int{{2, 252}, {3, 251}, {5, 250}, {3, 65533}} {
+		w, start := c[0], c[1]
+		add("new %d", w)
+		for h := start; h <= start+2*w+3; h++ {
+			tx := "-"
+			if h-start < c31NTxs {
+				tx = strconv.Itoa(h - start)
+			}
+			add("notify %d %d 0 %s", h, 10*h, tx)
+			add("restart %d", w)
+		}
+		add("restart %d", w)
+	}
+
 	windows := []uint64{1, 2, 3, 5}
 	nseq := r.N(60, 1500)
 	for i := 0; i < nseq; i++ {
@@ -646,8 +657,11 @@ func c31Generate(r *verifh.Run) []string {
 		clean := r.RNG.Chance(40) // consecutive heights, same-window restarts: the partial theorems' histories
 		wild := !clean && r.RNG.Chance(25)
 		h := uint64(r.RNG.Intn(4))
-		if r.RNG.Chance(50) {
+		switch p := r.RNG.Intn(100); {
+		case p < 40:
 			h = 0 // genesis is delivered first
+		case p < 65:
+			h = 256*uint64(1+r.RNG.Intn(3)) - 1 - uint64(r.RNG.Intn(int(w)+3)) // the window will straddle a multiple of 256
 		}
 		first := true
 		nextTx := 0
